@@ -301,6 +301,46 @@ def lean_leg(pid: str, thorough: bool) -> dict:
     return res
 
 
+
+# ---------------------------------------------------------------------- what changed in the source
+
+_CHANGED: list[str] | None = None
+
+FILE_CLASSES = {
+    "add.py": ["Add"], "multiply.py": ["Multiply"], "minus.py": ["Minus"], "divide.py": ["Divide"], "power.py": ["Power"],
+    "negation.py": ["Negation"], "reciprocal.py": ["Reciprocal"], "cosine.py": ["Cosine"], "sine.py": ["Sine"],
+    "nth_power.py": ["NthPower"], "nth_root.py": ["NthRoot"], "exponential.py": ["Exponential"], "logarithm.py": ["Logarithm"],
+    "n_ary_expression.py": ["Add", "Multiply"], "binary_expression.py": ["Minus", "Divide", "Power"],
+    "unary_expression.py": ["Negation", "Reciprocal", "Cosine", "Sine", "NthPower", "NthRoot", "Exponential", "Logarithm"],
+    "parameterized_unary_expression.py": ["NthPower", "NthRoot", "Exponential", "Logarithm"],
+}
+
+
+def changed_sources() -> list[str]:
+    """source files of the implementation that differ from the fingerprint the checks were last
+    validated against (baseline_src.json); used only to aim and enlarge the generated cases — a
+    changed file is where the tie between model and code has to be re-established"""
+    global _CHANGED
+    if _CHANGED is None:
+        import hashlib
+        try:
+            base = json.loads((VERIF / "baseline_src.json").read_text())["files"]
+        except (OSError, ValueError, KeyError):
+            base = {}
+        root = REPO / "src" / "smoothmath"
+        now = {str(p.relative_to(root)): hashlib.sha256(p.read_bytes()).hexdigest() for p in sorted(root.rglob("*.py"))}
+        _CHANGED = sorted(k for k in set(base) | set(now) if base.get(k) != now.get(k)) if base else []
+    return _CHANGED
+
+
+def changed_classes() -> list[str]:
+    out: list[str] = []
+    for f in changed_sources():
+        for c in FILE_CLASSES.get(f.rsplit("/", 1)[-1], []):
+            if c not in out:
+                out.append(c)
+    return out
+
 # ------------------------------------------------------------------------------------ evidence
 
 def write_evidence(rep: Report, rule: str, trusted: list[str], assumptions: list[str],
